@@ -102,3 +102,36 @@ int mblen (const char *s, size_t n)
   return k;
 }
 #endif
+#ifdef VERIF_CBMC
+/* faithful mini-printf (CBMC's own sprintf model writes arbitrary content): %s %d %i %u %ld %lld %lu %c %% and literals */
+#include <stdarg.h>
+static int verif_fmt (char *out, size_t cap, int bounded, const char *fmt, va_list ap)
+{
+  size_t n = 0; int i;
+#define VPUT(c) do { if (!bounded || n + 1 < cap) out[n] = (c); n++; } while (0)
+  for (i = 0; fmt[i]; i++)
+    {
+      if (fmt[i] != '%') { VPUT (fmt[i]); continue; }
+      i++;
+      while (fmt[i] == 'l' || fmt[i] == 'z' || fmt[i] == 'h' || fmt[i] == '+') i++;
+      if (fmt[i] == 's') { const char *s = va_arg (ap, const char *); int k; if (!s) s = "(null)"; for (k = 0; s[k]; k++) VPUT (s[k]); }
+      else if (fmt[i] == 'c') { int c = va_arg (ap, int); VPUT ((char) c); }
+      else if (fmt[i] == '%') { VPUT ('%'); }
+      else if (fmt[i] == 'd' || fmt[i] == 'i' || fmt[i] == 'u')
+        {
+          long long v; unsigned long long m; char tmp[24]; int k = 0;
+          if (fmt[i - 1] == 'l' || fmt[i - 1] == 'z') v = va_arg (ap, long long); else v = va_arg (ap, int);
+          if (fmt[i] != 'u' && v < 0) { VPUT ('-'); m = 0ULL - (unsigned long long) v; } else m = (unsigned long long) v;
+          do { tmp[k++] = (char) ('0' + (int) (m % 10)); m /= 10; } while (m && k < 22);
+          while (k > 0) VPUT (tmp[--k]);
+        }
+      else { VPUT ('?'); }
+    }
+  if (!bounded || n < cap) out[n] = 0; else if (cap) out[cap - 1] = 0;
+  return (int) n;
+}
+int sprintf (char *buf, const char *fmt, ...)
+{ va_list ap; int r; va_start (ap, fmt); r = verif_fmt (buf, 0, 0, fmt, ap); va_end (ap); return r; }
+int snprintf (char *buf, size_t cap, const char *fmt, ...)
+{ va_list ap; int r; va_start (ap, fmt); r = verif_fmt (buf, cap, 1, fmt, ap); va_end (ap); return r; }
+#endif
